@@ -449,7 +449,100 @@ func c07AbandonRun(c c07AbandonCase) Verdict {
 	return v
 }
 
+// ---- a chunk announced larger than anything that will ever arrive ----
+
+type c07HugeCase struct {
+	Mode  int    `json:"mode"`
+	First int    `json:"first"` // octets delivered in an earlier, complete chunk
+	Size  string `json:"size"`  // the announced size of the judged chunk, decimal, far beyond Sent
+	Last  bool   `json:"last"`
+	Sent  int    `json:"sent"`  // octets of the chunk that arrive before the client disconnects
+	Fault string `json:"fault"` // eof, eof-with-data, abort
+}
+
+// c07HugeRun: the client announces a chunk of an enormous size (around 2^31,
+// 2^32, 2^63, 2^64, or longer than any machine integer), sends a few octets
+// of it and disconnects. Whatever the server makes of the number, the chunk
+// has not arrived in full: no end-of-file for the backend and no positive
+// reply.
+func c07HugeRun(c c07HugeCase) Verdict {
+	lmtp := c.Mode != 0
+	cfg := harness.Config{LMTP: lmtp, EOFWithData: c.Fault == "eof-with-data"}
+	script := harness.Script{LMTPSession: c.Mode == 2, DefaultData: &harness.DataPlan{Read: harness.ReadPlan{Limit: -1}, Honest: true}}
+	r := harness.NewRig(cfg, script)
+	w, _ := r.Dial()
+	if e := preamble(w, lmtp, true, 1); e != "" {
+		w.Finish()
+		return Verdict{Inconclusive: e}
+	}
+	if c.First > 0 {
+		var cv conv
+		cv.cmd(fmt.Sprintf("BDAT %d", c.First))
+		cv.raw(bytes.Repeat([]byte("f"), c.First))
+		out, st := w.Exchange(cv.buf)
+		rs, err := harness.ParseReplies(out)
+		if st != harness.QIdle || err != nil || len(rs) != 1 || rs[0].Code != 250 {
+			w.Finish()
+			return Verdict{Inconclusive: fmt.Sprintf("first chunk not accepted: %s %v %v", st, err, codes(rs))}
+		}
+	}
+	line := "BDAT " + c.Size
+	if c.Last {
+		line += " LAST"
+	}
+	var cv conv
+	cv.cmd(line)
+	cv.raw(bytes.Repeat([]byte("Hello\r\n"), c.Sent/7+1)[:c.Sent])
+	switch c.Fault {
+	case "eof-with-data":
+		w.SendFinal(cv.buf)
+	case "abort":
+		w.Send(cv.buf)
+		if st := w.WaitQuiet(); st == harness.QWatchdog {
+			w.Finish()
+			return Verdict{Inconclusive: "watchdog before abort"}
+		}
+		w.Recv()
+		w.Abort()
+	default:
+		w.Send(cv.buf)
+	}
+	rest, fin := w.Finish()
+	if !fin {
+		return finishFail(w)
+	}
+	v := Verdict{NonTrivial: true, Classes: []string{"fault_" + c.Fault}}
+	if c.First > 0 {
+		v.Classes = append(v.Classes, "after_complete_chunk")
+	}
+	if len(c.Size) >= 19 {
+		v.Classes = append(v.Classes, "size_around_or_beyond_2^63")
+	}
+	if p := r.Log.Panicked(); p != "" {
+		return failf("panic", "server logged a panic: %s", p)
+	}
+	for _, e := range dataEvents(r.B.Events()) {
+		if e.Data.EOF {
+			return failf("eof-incomplete", "%q, of which %d octets arrived before the client disconnected (%s): the backend's reader reported end-of-file after %s",
+				line, c.Sent, c.Fault, q(e.Data.Bytes))
+		}
+	}
+	if c.Fault != "abort" {
+		rs, err := harness.ParseRepliesLenient(rest)
+		if err != nil {
+			return failf("reply-syntax", "replies do not parse: %v (%s)", err, q(rest))
+		}
+		for _, rp := range rs {
+			if rp.Class() == 2 {
+				return failf("positive-final-incomplete", "%q, of which %d octets arrived before the client disconnected, was answered %s", line, c.Sent, rp)
+			}
+		}
+	}
+	return v
+}
+
 var (
+	c07Huge    *subCheck[c07HugeCase]
 	c07Cuts    *subCheck[c07Case]
 	c07Abandon *subCheck[c07AbandonCase]
 )
@@ -458,12 +551,13 @@ func init() {
 	registrars = append(registrars, func() {
 		c07Cuts = newSub("C07", "cuts", c07Run)
 		c07Abandon = newSub("C07", "abandon", c07AbandonRun)
+		c07Huge = newSub("C07", "huge", c07HugeRun)
 	})
 }
 
 func TestC07(t *testing.T) {
 	registerAll()
-	st.Rule = "cases = (conversation of 1-2 DATA/BDAT messages in SMTP/LMTP mode, cut offset, fault mode eof|eof reported together with the last octets|abort): every cut offset of every generated conversation is run; plus abandoning actions (RSET, QUIT, new greeting, EOF, idle timeout, an over-limit chunk followed by a fitting LAST chunk) at chunk boundaries; non-trivial = the cut or action falls strictly inside a message (after its first octet, before completion); distinct = hash of (conversation, cut, fault)"
+	st.Rule = "cases = (conversation of 1-2 DATA/BDAT messages in SMTP/LMTP mode, cut offset, fault mode eof|eof reported together with the last octets|abort): every cut offset of every generated conversation is run; plus chunks announced with enormous sizes (around 2^31, 2^32, 2^63, 2^64 and beyond) of which a few octets arrive; plus abandoning actions (RSET, QUIT, new greeting, EOF, idle timeout, an over-limit chunk followed by a fitting LAST chunk) at chunk boundaries; non-trivial = the cut or action falls strictly inside a message (after its first octet, before completion); distinct = hash of (conversation, cut, fault)"
 	if !regress(t, "C07") {
 		return
 	}
@@ -489,6 +583,25 @@ func TestC07(t *testing.T) {
 	st.note("cut offsets are exhaustive per conversation; %d conversations drawn (incl. shrink reruns)", doneConvs)
 	if t.Failed() {
 		return
+	}
+	// enormous announced chunk sizes, cut short
+	idx := 0
+	for _, first := range []int{0, 5} {
+		for _, sz := range c06HugeSizes(first) {
+			for _, last := range []bool{true, false} {
+				for _, sent := range []int{0, 7} {
+					for _, fault := range []string{"eof", "eof-with-data", "abort"} {
+						idx++
+						if !mine(idx) {
+							continue
+						}
+						if !c07Huge.one(t, c07HugeCase{Mode: idx % 3, First: first, Size: sz, Last: last, Sent: sent, Fault: fault}) {
+							return
+						}
+					}
+				}
+			}
+		}
 	}
 	c07Abandon.rapidCheck(t, pickTier(400, 8000), func(rt *rapid.T) c07AbandonCase {
 		action := rapid.SampledFrom([]string{"RSET", "QUIT", "EHLO", "EOF", "EOF", "RSET", "TIMEOUT", "DATA-TIMEOUT", "OVERLIMIT", "OVERLIMIT"}).Draw(rt, "action")
